@@ -18,7 +18,7 @@ ID = "C25"
 LEVEL = "fault_enumeration"
 TIERS = {
   "quick": {"runs": 96, "chunk": 6, "budget_s": 420, "timeout_s": 300},
-  "thorough": {"runs": 1600, "chunk": 10, "budget_s": 3000, "timeout_s": 300},
+  "thorough": {"runs": 384, "chunk": 8, "budget_s": 1500, "timeout_s": 300},
 }
 RULE = ("one evaluation = one (probe batch, iteration limit L, loop form) forward() compared world by world with the generous-limit reference "
         "from the same state; per probe batch L is enumerated completely over [0, max n* + 2] (n* = iterations the world needs; bounded to 40 "
